@@ -17,6 +17,7 @@ const (
 	c09nUntag     = "(*~/internal/resolver.Memory).Untag"
 	c09nTag       = "(*~/internal/resolver.Memory).Tag"
 	c09nMap       = "(*~/internal/resolver.Memory).Map"
+	c09nResolve   = "(*~/internal/resolver.Memory).Resolve"
 	c09nRemove    = "(*~/internal/graph.Memory).Remove"
 	c09nExists    = "(*~/internal/graph.Memory).Exists"
 	c09nIndexAll  = "(*~/internal/graph.Memory).IndexAll"
@@ -289,8 +290,10 @@ func c09FindHelpers(c *Ctx, rule string) *c09Helpers {
 		if len(CallsTo(g, c09nRemove)) > 0 && len(CallsTo(g, c09nStDelete)) > 0 {
 			h.deleteOne = g
 		}
-		if g != h.del && len(CallsTo(g, c09nTagSet)) > 0 && g.Signature.Results().Len() == 1 && types.Identical(g.Signature.Results().At(0).Type(), types.Typ[types.Bool]) {
-			h.isTagged = g
+		if g != h.del && g.Signature.Results().Len() == 1 && types.Identical(g.Signature.Results().At(0).Type(), types.Typ[types.Bool]) {
+			if len(CallsTo(g, c09nTagSet)) > 0 || c09TagPredOf(c.P, g) != nil {
+				h.isTagged = g
+			}
 		}
 	}
 	if h.deleteOne != nil {
@@ -609,27 +612,39 @@ func c09R3Delete(c *Ctx, R3 string, h *c09Helpers) {
 						}
 					}
 				}
+				// the descriptor the resolver holds for the key: the value of the same map entry, or what the
+				// resolver answers for the key (Resolve(ctx, key) of the store's resolver)
+				isVal := func(v ssa.Value) bool {
+					rs := Roots(c09CellOrValue(v))
+					for _, r := range rs {
+						e, ok := r.(*ssa.Extract)
+						if !ok {
+							return false
+						}
+						if nx != nil && e.Index == 2 && e.Tuple == nx {
+							continue
+						}
+						rc, isCall := e.Tuple.(*ssa.Call)
+						if !isCall || e.Index != 0 || ks.key == nil || CalleeName(rc) != c09nResolve || !c08StoreFieldLoads(f, h.store, "tagResolver")[rc.Call.Args[0]] || !c09SameKey(rc.Call.Args[2], ks.key) {
+							return false
+						}
+					}
+					return len(rs) > 0
+				}
+				eq, _, _ := CallTests(f, c09nEqual, func(x *ssa.Call) bool {
+					a, b := x.Call.Args[0], x.Call.Args[1]
+					return (isVal(a) && sameAsTarget(b)) || (isVal(b) && sameAsTarget(a))
+				})
+				if len(eq) > 0 && c09Guarded(ks.at, eq) {
+					continue
+				}
 				if nx == nil {
 					undecided = true
 					continue
 				}
-				eq, _, _ := CallTests(f, c09nEqual, func(x *ssa.Call) bool {
-					a, b := x.Call.Args[0], x.Call.Args[1]
-					isVal := func(v ssa.Value) bool {
-						for _, r := range Roots(c09CellOrValue(v)) {
-							if e, ok := r.(*ssa.Extract); !ok || e.Index != 2 || e.Tuple != nx {
-								return false
-							}
-						}
-						return true
-					}
-					return (isVal(a) && sameAsTarget(b)) || (isVal(b) && sameAsTarget(a))
-				})
-				if !c09Guarded(ks.at, eq) {
-					// `for ref := range m` over a map that was filtered down to the equal entries beforehand
-					if nxt, isNext := nx.(*ssa.Next); !isNext || !c09MapFilteredTo(nxt.Iter.(*ssa.Range).X, nxt, sameAsTarget) {
-						okAll = false
-					}
+				// `for ref := range m` over a map that was filtered down to the equal entries beforehand
+				if nxt, isNext := nx.(*ssa.Next); !isNext || !c09MapFilteredTo(nxt.Iter.(*ssa.Range).X, nxt, sameAsTarget) {
+					okAll = false
 				}
 			}
 			if undecided {
@@ -1022,20 +1037,22 @@ func c09R3IsTagged(c *Ctx, R3 string, h *c09Helpers) {
 	}
 	fn := FnName(f)
 	key := fn + "|digest-self-reference-discounted"
-	ts := CallsTo(f, c09nTagSet)
-	if len(ts) != 1 {
-		c.Undecided(R3, key, f.Pos(), "expected exactly one TagSet call")
+	tp := c09TagPredOf(c.P, f)
+	if tp == nil {
+		c.Undecided(R3, key, f.Pos(), "expected exactly one TagSet call (or the answer of a resolver predicate over the tag set of the descriptor)")
 		return
 	}
-	set := Aliases(ts[0].Value())
-	desc := c09DescObjOf(ts[0].Common().Args[1])
+	// the predicate is judged where it is evaluated (isTagged itself, or the resolver method it asks)
+	f = tp.fn
+	set := tp.set
+	isSelf := tp.isSelf
 	selfT, selfF, _ := CallTests(f, "(~/internal/container/set.Set[T]).Contains", func(x *ssa.Call) bool {
-		return set[x.Call.Args[0]] && c09DigestString(desc, x.Call.Args[1])
+		return set[x.Call.Args[0]] && isSelf(x.Call.Args[1])
 	})
 	if len(selfT) == 0 {
 		// also accept a comma-ok lookup  _, ok := tagSet[string(desc.Digest)]
 		AllInstrs(f, func(in ssa.Instruction) {
-			if lk, ok := in.(*ssa.Lookup); ok && lk.CommaOk && set[lk.X] && c09DigestString(desc, lk.Index) {
+			if lk, ok := in.(*ssa.Lookup); ok && lk.CommaOk && set[lk.X] && isSelf(lk.Index) {
 				for _, r := range *lk.Referrers() {
 					if ex, ok := r.(*ssa.Extract); ok && ex.Index == 1 {
 						te, fe := BoolTests(f, Aliases(ex))
@@ -1049,7 +1066,7 @@ func c09R3IsTagged(c *Ctx, R3 string, h *c09Helpers) {
 		// alternative shape: the (cloned) tag set has the digest self-reference removed, then any remaining element counts
 		var dels []ssa.Instruction
 		AllInstrs(f, func(in ssa.Instruction) {
-			if op, sv, elem := c09SetOp(in); op == "del" && set[sv] && c09DigestString(desc, elem) {
+			if op, sv, elem := c09SetOp(in); op == "del" && set[sv] && isSelf(elem) && !tp.shared {
 				dels = append(dels, in)
 			}
 		})
@@ -1074,7 +1091,7 @@ func c09R3IsTagged(c *Ctx, R3 string, h *c09Helpers) {
 			return
 		}
 		// alternative shape: a search for a tag other than the own digest — `for tag := range tagSet { if tag != self { return true } }; return false`
-		if ok, decided := c09IsTaggedBySearch(f, set, desc); decided {
+		if ok, decided := c09IsTaggedBySearch(f, set, isSelf); decided {
 			c.Check(R3, key, f.Pos(), ok, ifelse(ok, "tagged iff some element of the tag set differs from the descriptor's own digest", "the search over the tag set does not answer true exactly for a tag other than the descriptor's own digest"))
 			return
 		}
@@ -1559,10 +1576,104 @@ func c09PredIs(pred ssa.Value, target *ssa.Function) bool {
 	return true
 }
 
+// c09TagPred: where "the tag set of descriptor d" is inspected for the
+// isTagged answer: the function that evaluates the predicate, the aliases of
+// the set there, and what denotes d's own digest as a reference string.
+// shared: the set is the resolver's own (not a snapshot) and must not be
+// modified by the predicate.
+type c09TagPred struct {
+	fn     *ssa.Function
+	set    map[ssa.Value]bool
+	isSelf func(ssa.Value) bool
+	shared bool
+}
+
+// c09TagPredOf: f takes the snapshot TagSet(d) and judges it itself, or f
+// answers with the result of a bool method of the resolver that looks up the
+// digest -> references entry of d in place (state by role) and is handed
+// string(d.Digest) as the reference to discount.
+func c09TagPredOf(p *Prog, f *ssa.Function) *c09TagPred {
+	if ts := CallsTo(f, c09nTagSet); len(ts) == 1 {
+		desc := c09DescObjOf(ts[0].Common().Args[1])
+		return &c09TagPred{fn: f, set: Aliases(ts[0].Value()), isSelf: func(v ssa.Value) bool { return c09DigestString(desc, v) }}
+	} else if len(ts) > 1 {
+		return nil
+	}
+	mem := p.Named("internal/resolver", "Memory")
+	if mem == nil {
+		return nil
+	}
+	var call *ssa.Call
+	for _, a := range RetAtoms(f, 0) {
+		cl, ok := a.Val.(*ssa.Call)
+		if !ok || (call != nil && cl != call) {
+			return nil
+		}
+		call = cl
+	}
+	if call == nil {
+		return nil
+	}
+	q := StaticCallee(call)
+	if q == nil || !inModule(q) || len(q.Blocks) == 0 || q.Signature.Recv() == nil || len(q.Params) == 0 {
+		return nil
+	}
+	if pt, ok := q.Params[0].Type().(*types.Pointer); !ok || !types.Identical(pt.Elem(), mem) {
+		return nil
+	}
+	// the entry of the digest -> references map at a parameter's digest
+	var set map[ssa.Value]bool
+	pd := -1
+	AllInstrs(q, func(in ssa.Instruction) {
+		lk, ok := in.(*ssa.Lookup)
+		if !ok || lk.CommaOk || !c09IsLoadOfField(lk.X, mem, "tags") {
+			return
+		}
+		for i, prm := range q.Params {
+			if i > 0 && c09DescObjOf(prm).fieldOf(lk.Index, "Digest") {
+				if set == nil {
+					set = map[ssa.Value]bool{}
+				}
+				if pd >= 0 && pd != i {
+					pd = -2
+				}
+				if pd != -2 {
+					pd = i
+				}
+				for a := range Aliases(lk) {
+					set[a] = true
+				}
+			}
+		}
+	})
+	if set == nil || pd < 1 || pd >= len(call.Call.Args) {
+		return nil
+	}
+	// which string parameters carry d's own digest at the asking site
+	desc := c09DescObjOf(call.Call.Args[pd])
+	self := map[ssa.Value]bool{}
+	for i, prm := range q.Params {
+		if b, ok := prm.Type().Underlying().(*types.Basic); ok && b.Kind() == types.String && i < len(call.Call.Args) && c09DigestString(desc, call.Call.Args[i]) {
+			for a := range Aliases(prm) {
+				self[a] = true
+			}
+		}
+	}
+	return &c09TagPred{fn: q, set: set, shared: true, isSelf: func(v ssa.Value) bool {
+		rs := Roots(v)
+		for _, r := range rs {
+			if !self[r] {
+				return false
+			}
+		}
+		return len(rs) > 0
+	}}
+}
+
 // c09IsTaggedBySearch: f loops over the keys of the tag set and answers true as
 // soon as (and only when) it meets a key different from the descriptor's own
 // digest; false after the loop.
-func c09IsTaggedBySearch(f *ssa.Function, set map[ssa.Value]bool, desc c09DescObj) (ok, decided bool) {
+func c09IsTaggedBySearch(f *ssa.Function, set map[ssa.Value]bool, isSelf func(ssa.Value) bool) (ok, decided bool) {
 	for _, it := range c09ItersIn(f) {
 		if it.Coll == nil || it.Key == nil || !(set[it.Coll] || set[c09Resolved(it.Coll)]) {
 			continue
@@ -1578,7 +1689,7 @@ func c09IsTaggedBySearch(f *ssa.Function, set map[ssa.Value]bool, desc c09DescOb
 			if !isBo || (bo.Op != token.EQL && bo.Op != token.NEQ) {
 				continue
 			}
-			if (c09SameKey(bo.X, it.Key) && c09DigestString(desc, bo.Y)) || (c09SameKey(bo.Y, it.Key) && c09DigestString(desc, bo.X)) {
+			if (c09SameKey(bo.X, it.Key) && isSelf(bo.Y)) || (c09SameKey(bo.Y, it.Key) && isSelf(bo.X)) {
 				if bo.Op == token.EQL {
 					neq = append(neq, fe)
 				} else {
